@@ -146,6 +146,9 @@ impl Oracle {
         if self.failures.len() < 50 { self.failures.push(Failure { what, replay, signature }); }
         else { self.count("failures_not_recorded"); }
     }
+    /// 50 failures are recorded with their replays; once that many (plus a margin) have been seen a family stops generating
+    /// further cases: more of the same adds nothing, and a broken implementation can make cases arbitrarily expensive
+    pub fn saturated(&self) -> bool { self.failures.len() >= 50 && self.dist.get("failures_not_recorded").copied().unwrap_or(0) >= 150 }
     pub fn check(&mut self, cond: bool, what: impl FnOnce() -> (String, String, String)) -> bool {
         if !cond { let (w, r, s) = what(); self.fail(w, r, s); }
         cond
